@@ -1,6 +1,6 @@
 """C15 — parsing options do what they say: JOIN_SAME_ENTRIES, PYTHON_STYLE, unknown options."""
 import re
-import vlib, grammar, gens
+import vlib, grammar, gens, laylib
 from vlib import enc
 from checklib import Scenario
 
@@ -10,7 +10,7 @@ RULE = ("(a) option strings built from documented items in every order, repeated
         "defined several times incl. empty definitions and multi-line definitions, in sections that are re-opened with other sections in between, read with and without JOIN_SAME_ENTRIES: "
         "the non-empty value lines must be those of all definitions since the last empty one (independent Python computation) "
         "resp. the first definition; (c) PYTHON_STYLE files (indented lines containing delimiters and comment characters, "
-        "comment characters after values): model = implementation and the independently computed value; distinct by scenario")
+        "comment characters after values): model = implementation and the independently computed value; (d) layered reads (three call shapes) with the options on the handle over trees whose main files and drop-ins repeat keys and hold indented lines: model = implementation; distinct by scenario")
 
 DOC = ["JOIN_SAME_ENTRIES=1", "JOIN_SAME_ENTRIES=0", "PYTHON_STYLE=1", "PYTHON_STYLE=0"]
 
@@ -84,6 +84,12 @@ def gen(rng, tier):
         s = Scenario([gens.parse_cmd(0, b"/p/f.conf", b"\n".join(lines) + b"\n", rng.choice([b"=", b":="]), b"#", True, False), "getall 0", "dump 0"],
                      [True, True, True], tags=("python",))
         out.append(s)
+    # the options travel with the handle into EVERY file of a layered read: main file and drop-ins alike
+    for _ in range(n // 2):
+        st = laylib.setup(rng, mode=rng.choice([1, 2, 3]), popts=True)
+        cmds = st["cmds"] + st["pre"] + ["opts 0", st["read"], "dump 0", "getall 0"]
+        k = len(st["cmds"]) + len(st["pre"])
+        out.append(Scenario(cmds, [False] * k + [True] * 4, tags=("layered-options",)))
     return out
 
 def oracle(s, ilines):
